@@ -12,6 +12,22 @@ CLAIMED = {
     design="6 C19"),
 }
 
+ASDU_NOTE = ("Trusted: Lean kernel + propext/Classical.choice/Quot.sound; hand-written byte-level model (Iec.Layout, Iec.Asdu, 67-entry type table) "
+             "tied to the C code by the differential run of this check (all 67 types x size configurations x SQ, objects built by the public "
+             "constructors from PRNG arguments, struct members dumped through the internal header) and by the model-free oracle; objects are "
+             "modelled by their stored representation; 24-bit wire fields exercised within wire range.")
+CLAIMED.update({
+ "C01": dict(
+    text="Lean theorems on the ASDU model: field-level decode(encode v ++ rest) = (v, rest) for every layout; Built invariant preserved by every accepted addition (any count/values, SQ 0/1); roundtrip_seq / roundtrip_noseq / roundtrip_single read every element of a built ASDU back with its address and stored members for every table entry; header getters; re-encode. Tie: differential build/read-back stream over all types x configs x SQ plus model-free round-trip oracle on the real code.",
+    note=ASDU_NOTE, technique="Lean 4 proof (induction over field lists and additions) + differential correspondence", design="6 C01"),
+ "C02": dict(
+    text="Lean theorems: getElement returns an object iff the element's octet range (computed as CS101_ASDU_getElementEx computes it) lies inside the payload, for every byte string, index and size configuration (66 fixed-size types + the F_SG_NA_1 length-prefixed case), unknown type ids give none, header length test exact. In-bounds behaviour of the C code itself is tied by executing every parse of the differential stream in exactly-sized heap blocks under ASan/UBSan (every truncation length of valid ASDUs of all types, mutations, noise).",
+    note=ASDU_NOTE + " Memory safety of the C parser is sanitizer-tied, not proved.", technique="Lean 4 proof (exactness iff) + differential correspondence under ASan", design="6 C02"),
+ "C12": dict(
+    text="Lean theorems: refused addition returns the ASDU unchanged; accepted addition appends exactly the encoding, stays <= maxSizeOfASDU, count+1 <= 127; run_inv: for every list of construction operations (add of any type/values, addPayload, clone, all header setters, clear) from any state satisfying the storage invariant the ASDU stays within 256 octets with a complete header. Tie: add-until-refusal for every type x configuration x maximum, setters/payload/clone in the differential stream on heap ASDUs under ASan, plus model-free oracle.",
+    note=ASDU_NOTE, technique="Lean 4 proof (invariant by induction over operation lists) + differential correspondence", design="6 C12"),
+})
+
 NOT_YET = "not claimed yet in this round: the Lean model/theorems and the correspondence harness for this property are still being built (see DESIGN.md section 10 for the order); no other technique is substituted"
 
 checks = []
